@@ -185,8 +185,7 @@ def check_obstacle(r, ctx):
     off_centre = ob.get("shape") is not None and ob["role"] in ("static", "dynamic") and _off_centre(ob["shape"])
     if off_centre:
         ctx.label("shape-with-own-centre-offset")
-    if ob.get("_motion") and not off_centre:   # (an own centre offset is not rotated about the origin by the library:
-        # the occupancy is re-derived from the moved state, so the rigid image is not the reference there)
+    if ob.get("_motion"):
         # metamorphic: the queries above have filled every cache; after a rigid motion of the obstacle each occupancy
         # must be the rigid image of the occupancy before (same horizon)
         t, a = ob["_motion"]
@@ -201,6 +200,11 @@ def check_obstacle(r, ctx):
                 if exp is None:
                     continue
                 e2 = rigid_geo(exp, t, a)
+                if off_centre and not (ob["role"] == "dynamic" and horizon(ob)[ts][0] == "occ"):
+                    # an own centre offset is not rotated about the origin: the occupancy is the shape placed at the
+                    # MOVED state (what a freshly built obstacle with the moved state has)
+                    st_ = ob["init"] if ob["role"] == "static" else horizon(ob)[ts][1]
+                    e2 = gg.place(ob["shape"], geom.rigid(st_["a"]["position"], t, a), theta_of(st_) + a)
                 d = gg.same_geo(gg.lib_shape_geo(occ.shape), e2, 1e-8 * (1 + gg.geo_scale_of(e2) + abs(t[0]) + abs(t[1])))
                 if d:
                     raise Violation("moved-occupancy-geometry-" + ob["role"], "t=%d after translate_rotate(%r, %r): %s"
